@@ -60,6 +60,8 @@ func runAll(c *fw.Ctx) {
 	famConst(c, e)
 	c.Family("destructuring", "1-3 targets x RHS array length 0-3 / non-array x define/assign/selector targets")
 	famDestr(c, e)
+	c.Family("string-iteration", "for-in over all strings of <= 3 (thorough 4) characters of widths 1-4 and U+FFFD x 5 loop forms; model: Go's range")
+	famStringIteration(c)
 }
 
 // Corpus yields the source text of every program of the tier (no arguments needed).
